@@ -1,6 +1,191 @@
 package peers
 
-import "errors"
+import (
+	"context"
+	"crypto/tls"
+	"encoding/binary"
+	"fmt"
+	"io"
+	"net"
+	"net/http"
+	"net/netip"
+	"time"
 
-// startQUIC is filled in by quic_real.go once the QUIC peers exist.
-func (u *UpServer) startQUIC() error { return errors.New("upserver: quic not built yet") }
+	"github.com/quic-go/quic-go"
+	"github.com/quic-go/quic-go/http3"
+
+	"github.com/IrineSistiana/mosproxy/verifsim/plan"
+)
+
+func quicConf() *quic.Config {
+	return &quic.Config{MaxIdleTimeout: 30 * time.Second, HandshakeIdleTimeout: 5 * time.Second}
+}
+
+// startQUIC serves DoQ (kind quic) or DoH3 (kind h3) with real quic-go over a
+// simulated packet socket.
+func (u *UpServer) startQUIC() error {
+	uc, err := u.W.PeerListenUDP(u.addr())
+	if err != nil {
+		return err
+	}
+	uc.Label = "S" + u.Spec.Tag
+	tr := &quic.Transport{Conn: uc}
+	u.mu.Lock()
+	u.extra = append(u.extra, tr, uc)
+	u.mu.Unlock()
+	if u.Spec.Kind == "h3" {
+		srv := &http3.Server{Handler: http.HandlerFunc(u.serveHTTP), TLSConfig: http3.ConfigureTLSConfig(u.tlsConfig()), QuicConfig: quicConf()}
+		ln, err := tr.ListenEarly(srv.TLSConfig, srv.QuicConfig)
+		if err != nil {
+			return err
+		}
+		u.mu.Lock()
+		u.extra = append(u.extra, srv, ln)
+		u.mu.Unlock()
+		go srv.ServeListener(ln)
+		return nil
+	}
+	ln, err := tr.Listen(u.tlsConfig("doq"), quicConf())
+	if err != nil {
+		return err
+	}
+	u.mu.Lock()
+	u.extra = append(u.extra, ln)
+	u.mu.Unlock()
+	go func() {
+		for {
+			c, err := ln.Accept(context.Background())
+			if err != nil {
+				return
+			}
+			u.mu.Lock()
+			u.connSeq++
+			cid := u.connSeq
+			u.mu.Unlock()
+			go func() {
+				qc := qctx{sni: c.ConnectionState().TLS.ServerName}
+				for {
+					st, err := c.AcceptStream(context.Background())
+					if err != nil {
+						return
+					}
+					go func() {
+						var h [2]byte
+						st.SetReadDeadline(time.Now().Add(5 * time.Second))
+						if _, err := io.ReadFull(st, h[:]); err != nil {
+							st.CancelRead(0)
+							st.Close()
+							return
+						}
+						b := make([]byte, binary.BigEndian.Uint16(h[:]))
+						if _, err := io.ReadFull(st, b); err != nil {
+							st.CancelRead(0)
+							st.Close()
+							return
+						}
+						ctl := connCtl{
+							fin: func() { st.Close() },
+							rst: func() { st.CancelWrite(1); st.CancelRead(1) },
+							raw: func(p []byte) { st.Write(p); st.Close() },
+						}
+						u.handle(b, "quic", cid, qc, func(r []byte) {
+							f := make([]byte, 2+len(r))
+							binary.BigEndian.PutUint16(f, uint16(len(r)))
+							copy(f[2:], r)
+							st.Write(f)
+							st.Close()
+						}, ctl)
+					}()
+				}
+			}()
+		}
+	}()
+	return nil
+}
+
+func (c *Clients) runQUIC(cc *plan.ClientConn, cr *ConnRecord, srv plan.ServerSpec, ops []*OpRecord) {
+	src := netip.MustParseAddr(cc.Src)
+	_, target := targetFor(srv.Listen, src)
+	ua, err := net.ResolveUDPAddr("udp", target)
+	if err != nil {
+		cr.DialErr = err.Error()
+		return
+	}
+	c.sleepUntil(ops[0].Op.AtUs - 5000)
+	pc, err := c.W.PeerListenUDP(net.JoinHostPort(src.String(), "0"))
+	if err != nil {
+		cr.DialErr = err.Error()
+		return
+	}
+	pc.Label = fmt.Sprintf("C%d", cc.Idx)
+	tr := &quic.Transport{Conn: pc}
+	defer pc.Close()
+	defer tr.Close()
+	ctx, cancel := context.WithTimeout(context.Background(), 5*time.Second)
+	tcfg := c.clientTLS(cc, ProxyServerName, "doq")
+	conn, err := tr.Dial(ctx, ua, tcfg, quicConf())
+	cancel()
+	if err != nil {
+		cr.DialErr = "quic: " + err.Error()
+		return
+	}
+	cr.OpenedAt = c.S.Now()
+	done := make(chan struct{})
+	n := 0
+	for _, o := range ops {
+		c.sleepUntil(o.Op.AtUs)
+		o.Query = BuildQuery(o.Op)
+		o.SentAt = c.S.Now()
+		o.Sent = true
+		n++
+		go func() {
+			defer func() { done <- struct{}{} }()
+			st, err := conn.OpenStreamSync(context.Background())
+			if err != nil {
+				c.mu.Lock()
+				o.Err = err.Error()
+				c.mu.Unlock()
+				return
+			}
+			f := make([]byte, 0, 2+len(o.Query))
+			if o.Op.Raw != nil && o.Op.Method == "rawframe" {
+				f = append(f, o.Query...)
+			} else {
+				f = binary.BigEndian.AppendUint16(f, uint16(len(o.Query)))
+				f = append(f, o.Query...)
+			}
+			c.S.Logf("cl_send", "C%d op=%d quic n=%d", cc.Idx, o.Op.Idx, len(f))
+			st.Write(f)
+			st.Close()
+			st.SetReadDeadline(time.Now().Add(12 * time.Second))
+			all, _ := io.ReadAll(io.LimitReader(st, 1<<17))
+			// every complete frame on the stream is a response
+			for len(all) >= 2 {
+				l := int(binary.BigEndian.Uint16(all))
+				if len(all) < 2+l {
+					break
+				}
+				c.mu.Lock()
+				o.Resps = append(o.Resps, Resp{At: c.S.Now(), B: append([]byte(nil), all[2:2+l]...)})
+				c.mu.Unlock()
+				c.S.Logf("cl_resp", "C%d op=%d n=%d", cc.Idx, o.Op.Idx, l)
+				all = all[2+l:]
+			}
+			if len(all) > 0 {
+				c.mu.Lock()
+				cr.FrameErr = fmt.Sprintf("%d trailing bytes on a DoQ stream", len(all))
+				c.mu.Unlock()
+			}
+		}()
+	}
+	for i := 0; i < n; i++ {
+		<-done
+	}
+	time.Sleep(time.Duration(cc.LingerUs) * time.Microsecond / 8)
+	c.mu.Lock()
+	cr.ClosedAt = c.S.Now()
+	c.mu.Unlock()
+	conn.CloseWithError(0, "")
+}
+
+var _ = tls.VersionTLS13
